@@ -9,7 +9,8 @@
 From Coq Require Import ZArith List Bool Lia.
 From VBase Require Import MachInt FieldOps.
 From VModel Require Import Enforce.
-From VProofs Require Import EnforceSteps EnforceField EnforceDivisor EnforceValue EnforceInst.
+From VGen Require Assertions.
+From VProofs Require Import EnforceSteps EnforceField EnforceDivisor EnforceValue EnforceInst EnforceGen.
 Import ListNotations.
 Open Scope Z_scope.
 
@@ -100,6 +101,94 @@ Theorem C16_exemption_bounds : forall n k ce degs, 8 <= n -> exemptions_ok n k c
   1 <= k <= n / 2 + 1 /\ k < n /\ n / 2 - 1 <= n - k /\ 3 <= n - k.
 Proof. exact exemption_bounds. Qed.
 Print Assumptions C16_exemption_bounds.
+
+(* ================================================================== the model equals the code regenerated from the source *)
+(* Gen/Assertions.v is produced by rs2v from air/src/air/assertions/mod.rs on every run: for each Rust function `f`
+   a value function `assertions_f` (wrapping arithmetic) and, where the function contains checked arithmetic,
+   `assert!`s or unwraps, `assertions_f_ok` (true = the debug build does not panic).  `to_gen` / `of_gen` convert between
+   the model's record and the generated record GAssertion (values vector = its length); `usize_a a` = all four
+   fields are in [0, 2^64).  With these equalities the theorems above are statements about the generated terms. *)
+
+Theorem C16_gen_single : forall col step,
+  mk_single col step = Some (of_gen (Assertions.assertions_single col step tt)).
+Proof. exact gen_single. Qed.
+Print Assumptions C16_gen_single.
+
+Theorem C16_gen_periodic : forall col first stride,
+  mk_periodic col first stride =
+  if Assertions.assertions_periodic_ok col first stride tt
+  then Some (of_gen (Assertions.assertions_periodic col first stride tt)) else None.
+Proof. exact gen_periodic. Qed.
+Print Assumptions C16_gen_periodic.
+
+Theorem C16_gen_sequence : forall col first stride nvals,
+  mk_sequence col first stride nvals =
+  if Assertions.assertions_sequence_ok col first stride nvals
+  then Some (of_gen (Assertions.assertions_sequence col first stride nvals)) else None.
+Proof. exact gen_sequence. Qed.
+Print Assumptions C16_gen_sequence.
+
+Theorem C16_gen_validate_stride : forall stride first col,
+  Assertions.assertions_validate_stride_ok stride first col = validate_stride stride first.
+Proof. exact gen_validate_stride. Qed.
+Print Assumptions C16_gen_validate_stride.
+
+Theorem C16_gen_kinds : forall a,
+  Assertions.assertions_is_single (to_gen a) = is_single a /\
+  Assertions.assertions_is_periodic (to_gen a) = is_periodic a /\
+  Assertions.assertions_is_sequence (to_gen a) = is_sequence a.
+Proof. intros a. split; [apply gen_is_single|split; [apply gen_is_periodic|apply gen_is_sequence]]. Qed.
+Print Assumptions C16_gen_kinds.
+
+Theorem C16_gen_overlaps_with : forall a b, usize_a a -> usize_a b ->
+  overlaps_with a b =
+  if Assertions.assertions_overlaps_with_ok (to_gen a) (to_gen b)
+  then Some (Assertions.assertions_overlaps_with (to_gen a) (to_gen b)) else None.
+Proof. exact gen_overlaps_with. Qed.
+Print Assumptions C16_gen_overlaps_with.
+
+Theorem C16_gen_validate_trace_width : forall a w,
+  Assertions.assertions_validate_trace_width (to_gen a) w = if validate_trace_width a w then Some tt else None.
+Proof. exact gen_validate_trace_width. Qed.
+Print Assumptions C16_gen_validate_trace_width.
+
+(* the generated side condition fails exactly where the model answers VOverflow; elsewhere Ok/Err agree *)
+Theorem C16_gen_validate_trace_length : forall a n, usize_a a ->
+  Assertions.assertions_validate_trace_length_ok (to_gen a) n =
+    match validate_trace_length a n with VOverflow => false | _ => true end /\
+  (validate_trace_length a n <> VOverflow ->
+   Assertions.assertions_validate_trace_length (to_gen a) n =
+     match validate_trace_length a n with VOk => Some tt | _ => None end).
+Proof.
+  intros a n H. split; [apply gen_validate_trace_length_ok; exact H|apply gen_validate_trace_length; exact H].
+Qed.
+Print Assumptions C16_gen_validate_trace_length.
+
+Theorem C16_gen_get_num_steps : forall a n, usize_a a ->
+  get_num_steps a n =
+  if Assertions.assertions_get_num_steps_ok (to_gen a) n
+  then Some (Assertions.assertions_get_num_steps (to_gen a) n) else None.
+Proof. exact gen_get_num_steps. Qed.
+Print Assumptions C16_gen_get_num_steps.
+
+(* C16_overlaps_iff restated on the generated code: no panic, and true exactly on a common cell *)
+Theorem C16_gen_overlaps_iff : forall a b n, usize_a a -> usize_a b -> valid a n -> valid b n ->
+  Assertions.assertions_overlaps_with_ok (to_gen a) (to_gen b) = true /\
+  (Assertions.assertions_overlaps_with (to_gen a) (to_gen b) = true <->
+   a_col a = a_col b /\ exists s, In s (steps a n) /\ In s (steps b n)).
+Proof. exact gen_overlaps_iff. Qed.
+Print Assumptions C16_gen_overlaps_iff.
+
+Example C16_gen_nonvacuous :
+  usize_a (mkA 0 1 4 1) /\ usize_a (mkA 0 3 8 2) /\
+  Assertions.assertions_overlaps_with_ok (to_gen (mkA 0 1 4 1)) (to_gen (mkA 0 5 0 1)) = true /\
+  Assertions.assertions_overlaps_with (to_gen (mkA 0 1 4 1)) (to_gen (mkA 0 5 0 1)) = true /\
+  Assertions.assertions_get_num_steps_ok (to_gen (mkA 0 3 8 2)) 16 = true /\
+  Assertions.assertions_get_num_steps (to_gen (mkA 0 3 8 2)) 16 = 2 /\
+  Assertions.assertions_get_num_steps_ok (to_gen (mkA 0 3 8 2)) 32 = false /\
+  Assertions.assertions_sequence_ok 0 3 8 2 = true /\ Assertions.assertions_sequence_ok 0 8 8 2 = false /\
+  Assertions.assertions_validate_trace_length_ok (to_gen (mkA 0 (2 ^ 64 - 1) 0 1)) 8 = false.
+Proof. unfold usize_a, usize; cbn. repeat split; lia. Qed.
 
 (* ================================================================== field level *)
 Section Field.
